@@ -19,7 +19,7 @@ from concurrent.futures import ProcessPoolExecutor
 REPO = os.environ.get('VERIF_REPO', '/repo')
 VERIF = os.path.dirname(os.path.dirname(os.path.abspath(__file__)))
 CACHE = os.path.join(VERIF, '.cache')
-FRONTEND_VERSION = '8'
+FRONTEND_VERSION = '9'
 
 
 class AnalysisBroken(Exception):
@@ -200,6 +200,17 @@ _DROP_KINDS = {'FullComment', 'ParagraphComment', 'TextComment', 'BlockCommandCo
 _ATTR_RE = re.compile(r'Attr$')
 
 
+def _mentions(d, name):
+    if isinstance(d, dict):
+        rd = d.get('referencedDecl')
+        if isinstance(rd, dict) and rd.get('name') == name:
+            return True
+        for c in d.get('inner', []) or []:
+            if _mentions(c, name):
+                return True
+    return False
+
+
 def _qt(d):
     t = d.get('type')
     if not t:
@@ -310,6 +321,12 @@ class _Reducer(object):
             return N('int', 0, ty, loc, None, {'implicit': True})
         if kind == 'CompoundLiteralExpr':
             return N('compoundlit', None, ty, loc, ch)
+        if kind == 'StmtExpr' and _mentions(d, '__assert_fail'):
+            # glibc's assert(): `({ if (e) ; else __assert_fail(...); })`.  Analysed as in the NDEBUG build (no effect);
+            # a build with assertions enabled differs only by aborting where the asserted condition is false.
+            return N('int', 0, 'int', loc, None, {'assert': True})
+        if kind == 'PredefinedExpr':
+            return N('str', d.get('name') or '__func__', ty, loc)
         if kind == 'StmtExpr' or kind == 'PredefinedExpr' or kind == 'OffsetOfExpr' or kind == 'VAArgExpr':
             return N('unsupported_expr', kind, ty, loc, ch)
         # statements
